@@ -73,9 +73,14 @@ Proof.
   - intros [H|H]; discriminate.
 Qed.
 
+Local Arguments writer_deregisters_its_name : simpl never.
+Local Arguments conn_key_is_dest : simpl never.
+Local Arguments free_blocker_waits_for_accept_loop : simpl never.
+
 Section WithFacts.
   Hypothesis Hwait : free_blocker_waits_for_accept_loop = true.
   Hypothesis Hkey : conn_key_is_dest = true.
+  Hypothesis Hname : writer_deregisters_its_name = true.
 
   (* routine fields: the component is unchanged, or the accept loop is provably not at ADone *)
   Ltac not_done Id Is :=
@@ -84,7 +89,7 @@ Section WithFacts.
 
   Lemma step_inv s a s' : Inv s -> pstep s a = Some s' -> Inv s'.
   Proof.
-    intros [Io It Id Is Il Ir] H.
+    intros [Io It Id Is Il Ir] H. unfold pstep in H. rewrite Hname in H.
     destruct a; simpl in H.
     - (* accept *)
       destruct (x_acc s) eqn:Ea; try discriminate. destruct (x_listening s) eqn:El; [|discriminate].
@@ -215,6 +220,63 @@ Section WithFacts.
         unfold transient in Ht. rewrite Id in Ht. contradiction.
   Qed.
 
+  (** C15: every entry of the connection table belongs to a running link, or to the connection the accept loop is
+      about to link *)
+  Definition pending_key (s : px) (k : nat) : Prop :=
+    match x_acc s with
+    | ARegistered c => k = 2 * c \/ k = S (2 * c)
+    | ALinks1 c => k = S (2 * c)
+    | _ => False
+    end.
+
+  Definition Books (s : px) : Prop :=
+    forall k v, In (k, v) (x_table s) -> In k (x_links s) \/ pending_key s k.
+
+  Lemma Books_init : Books px_init.
+  Proof. intros k v []. Qed.
+
+  Lemma step_books s a s' : Books s -> pstep s a = Some s' -> Books s'.
+  Proof.
+    intros Hb H. unfold Books, pending_key in *. unfold pstep in H. rewrite Hname in H.
+    destruct a; simpl in H.
+    - destruct (x_acc s) eqn:Ea; try discriminate. destruct (x_listening s); [|discriminate].
+      inversion H; subst s'; clear H. simpl. intros k v Hin. destruct (Hb k v Hin) as [Hl|[]]. now left.
+    - destruct (x_acc s) eqn:Ea; try discriminate. destruct (x_listening s); [discriminate|].
+      inversion H; subst s'; clear H. simpl. intros k v Hin. destruct (Hb k v Hin) as [Hl|[]]. now left.
+    - destruct (x_acc s) eqn:Ea; try discriminate.
+      inversion H; subst s'; clear H. simpl. intros k v Hin. destruct (Hb k v Hin) as [Hl|[]]. now left.
+    - destruct (x_acc s) eqn:Ea; try discriminate.
+      inversion H; subst s'; clear H. simpl. intros k v Hin. destruct (Hb k v Hin) as [Hl|[]]. now left.
+    - destruct (x_acc s) eqn:Ea; try discriminate.
+      inversion H; subst s'; clear H. simpl. intros k v [Hin|[Hin|Hin]].
+      + inversion Hin; subst. right. now left.
+      + inversion Hin; subst. right. now right.
+      + destruct (Hb k v Hin) as [Hl|[]]. now left.
+    - destruct (x_acc s) eqn:Ea; try discriminate.
+      inversion H; subst s'; clear H. simpl. intros k v Hin. destruct (Hb k v Hin) as [Hl|[Hp|Hp]].
+      + left. now right.
+      + left. left. now symmetry.
+      + now right.
+    - destruct (x_acc s) eqn:Ea; try discriminate.
+      inversion H; subst s'; clear H. simpl. intros k v Hin. destruct (Hb k v Hin) as [Hl|Hp].
+      + left. now right.
+      + left. left. now symmetry.
+    - destruct (existsb (Nat.eqb k) (x_links s)); [|discriminate].
+      inversion H; subst s'; clear H. simpl. intros k' v Hin. apply in_rm_key in Hin as [Hin Hne].
+      destruct (Hb k' v Hin) as [Hl|Hp]; [left; apply in_rm; split; assumption|now right].
+    - destruct (x_stop s); try discriminate. inversion H; subst s'; clear H. exact Hb.
+    - destruct (x_dying s && negb (x_accdying s)); [|discriminate]. inversion H; subst s'; clear H. exact Hb.
+    - destruct (x_accdying s && _); [|discriminate]. inversion H; subst s'; clear H. exact Hb.
+    - destruct (x_stop s); try discriminate. destruct (x_done s); [|discriminate]. inversion H; subst s'; clear H. exact Hb.
+    - destruct (x_stop s); try discriminate. inversion H; subst s'; clear H. exact Hb.
+  Qed.
+
+  Theorem run_books l : forall s s', Books s -> prun s l = Some s' -> Books s'.
+  Proof.
+    induction l as [|a l IH]; intros s s' Hi Hr; simpl in Hr; [inversion Hr; subst; exact Hi|].
+    destruct (pstep s a) as [s1|] eqn:Hs; [|discriminate]. eapply IH; [eapply step_books; eassumption|exact Hr].
+  Qed.
+
   Theorem run_inv l : forall s s', Inv s -> prun s l = Some s' -> Inv s'.
   Proof.
     induction l as [|a l IH]; intros s s' Hi Hr; simpl in Hr; [inversion Hr; subst; exact Hi|].
@@ -230,6 +292,26 @@ Section WithFacts.
     intros Hr Hs. pose proof (run_inv l _ _ Inv_init Hr) as [Io It Id Is Il Ir].
     specialize (Is (or_intror Hs)). specialize (Id Is).
     split; [apply Il; now right|]. split; [exact Id|now apply Ir].
+  Qed.
+
+  (** C15 on every schedule - clients connecting, dials failing, links ending in any order, stop() at any point or
+      never: whenever every link that was started has ended and the accept loop is not in the middle of setting a
+      connection up, the connection table is empty and no socket is open *)
+  Theorem nothing_left_when_links_ended l s :
+    prun px_init l = Some s -> x_links s = [] -> (x_acc s = APending \/ x_acc s = ADone) ->
+    x_table s = [] /\ x_open s = [].
+  Proof.
+    intros Hr Hl Ha. pose proof (run_inv l _ _ Inv_init Hr) as [Io _ _ _ _ _].
+    pose proof (run_books l _ _ Books_init Hr) as Hb.
+    assert (Ht : x_table s = []).
+    { destruct (x_table s) as [|[k v] t] eqn:Et; [reflexivity|exfalso].
+      destruct (Hb k v) as [Hin|Hp]; [rewrite Et; now left|rewrite Hl in Hin; contradiction|].
+      unfold pending_key in Hp. destruct Ha as [Ha|Ha]; rewrite Ha in Hp; contradiction. }
+    split; [exact Ht|].
+    destruct (x_open s) as [|x o] eqn:Eo; [reflexivity|exfalso].
+    destruct (Io x) as [Hx|Hx]; [rewrite ?Eo; now left| |].
+    - unfold transient in Hx. destruct Ha as [Ha|Ha]; rewrite Ha in Hx; contradiction.
+    - rewrite Ht in Hx. contradiction.
   Qed.
 
   Theorem nothing_after_stop l s a s' :
